@@ -101,6 +101,7 @@ func vfRefDelta(old int, s string) (int, int) {
 func TestVerifC05Algebra(t *testing.T) {
 	r := vfev.New("C05", "algebra")
 	defer r.Finish()
+	defer r.RecoverPanic()
 	seen := map[string]int{}
 	for m := 0; m < 256; m++ {
 		am := AccessMode(m)
@@ -210,6 +211,7 @@ func TestVerifC05Algebra(t *testing.T) {
 func TestVerifC05Strings(t *testing.T) {
 	r := vfev.New("C05", "strings")
 	defer r.Finish()
+	defer r.RecoverPanic()
 	alpha := []byte{'J', 'R', 'W', 'P', 'A', 'S', 'D', 'O', 'N', 'j', 'n', 'x', '+', '-', ' ', 0xC3}
 	maxLen := 5
 	if vfev.Thorough() {
